@@ -515,11 +515,24 @@ func runCheck(args []string) int {
 		if rep == 0 {
 			rep = 1
 		}
+		perLabel := map[string]int{}
 		for i, ce := range hr.CEs {
+			if rep > 100 {
+				// many repetitions per case: a few counterexamples per label are enough
+				// (confirmation is per label)
+				perLabel[ce.Label]++
+				if perLabel[ce.Label] > 3 {
+					continue
+				}
+			}
 			cases = append(cases, nativeCase{Harness: h.Name, Vector: ce.Vector, Thorough: tier == "thorough", Repeat: rep, ID: fmt.Sprintf("ce%d", i), Race: st.Race})
 		}
+		prRep := rep
+		if prRep > 50 {
+			prRep = 50 // sampled paths are expected to pass: repeating them is only a flake check
+		}
 		for i, p := range hr.Predictions {
-			cases = append(cases, nativeCase{Harness: h.Name, Vector: p.Vector, Thorough: tier == "thorough", Repeat: rep, ID: fmt.Sprintf("pr%d", i), Race: st.Race})
+			cases = append(cases, nativeCase{Harness: h.Name, Vector: p.Vector, Thorough: tier == "thorough", Repeat: prRep, ID: fmt.Sprintf("pr%d", i), Race: st.Race})
 		}
 		outs, nerr := nr.run(h.PkgRel, cases)
 		if nerr != nil {
